@@ -8,14 +8,16 @@ def replay(violation, inputs, workdir, repo):
     here = os.path.dirname(os.path.abspath(__file__))
     os.makedirs(workdir, exist_ok=True)
     bindir = "/repo/_build/smpi_script/bin"
-    exe = os.path.join(workdir, "replay_mpi")
-    p = subprocess.run([bindir + "/smpicc", os.path.join(here, "replay_mpi.c"), "-o", exe], capture_output=True, text=True)
+    # serialize / unserialize obligations: native_pack.c (MPI_Pack of 2 copies of small layouts); lb/ub ones: replay_mpi.c
+    prog = "native_pack" if "serialize" in violation.get("label", "") else "replay_mpi"
+    exe = os.path.join(workdir, prog)
+    p = subprocess.run([bindir + "/smpicc", os.path.join(here, prog + ".c"), "-o", exe], capture_output=True, text=True)
     if p.returncode != 0:
         return {"reproduced": False, "error": "smpicc failed: " + p.stderr[-800:]}
     hf = os.path.join(workdir, "hostfile")
     open(hf, "w").write("Tremblay\n")
     q = subprocess.run([bindir + "/smpirun", "-np", "1", "-platform", "/repo/examples/platforms/small_platform.xml",
                         "-hostfile", hf, exe], capture_output=True, text=True, timeout=300)
-    out = "\n".join(l for l in (q.stdout + q.stderr).split("\n") if "over" in l)
+    out = "\n".join(l for l in (q.stdout + q.stderr).split("\n") if "over" in l or "MPI:" in l)
     return {"reproduced": q.returncode != 0 and "MPI:" in out, "exit": q.returncode, "output": out[-2000:],
-            "driver": os.path.join(here, "replay_mpi.c")}
+            "driver": os.path.join(here, prog + ".c")}
